@@ -316,8 +316,11 @@ def _xfilter(accumulator, test_range, condition, operating_range):
                     map(_, _re_condition.split(condition)),
                     tuple(map({'?': '.', '*': '.*'}.get, it)) + ('',)
                 ), ())), re.IGNORECASE | re.DOTALL).fullmatch
-                f = lambda v: isinstance(v, str) and bool(match(v))
+                f = lambda v: isinstance(v, str) and not isinstance(
+                    v, XlError
+                ) and bool(match(v))
                 b = np.vectorize(f, otypes=[bool])(test_range['raw'])
+                b &= ~test_range['empty']
                 try:
                     return accumulator(operating_range[b])
                 except FoundError as ex:
@@ -366,7 +369,12 @@ _xfilter = np.vectorize(_xfilter, otypes=[object], excluded={0, 1, 3})
 def xfilter(accumulator, test_range, condition, operating_range=None):
     operating_range = test_range if operating_range is None else operating_range
     # noinspection PyTypeChecker
-    test_range = {'raw': replace_empty(test_range, '')}
+    test_range = {
+        'raw': replace_empty(test_range, ''),
+        'empty': np.asarray(test_range, object) == np.array(
+            sh.EMPTY, dtype=object
+        )
+    }
     res = _xfilter(accumulator, test_range, condition, operating_range)
     return res.view(Array)
 
